@@ -133,6 +133,16 @@ class Prog:
                                      "annotated": list(annotated), "effective": [[k, eff[k]] for k in order]}
         return nid
 
+    def custom(self, e: int, shape: str) -> int:
+        """a user-defined Evaluatable subclass that delegates its four operations to `e`.  shape: how the class gets
+        them — "direct" (defined in the class body), "mixin" (inherited from a plain mixin class listed before
+        `Evaluatable`), "sub" (a subclass of a user-defined Evaluatable that defines nothing itself), "sub_mixin" (a
+        subclass of the mixin form).  For the model the node is `e.apply(identity)`: one request of its own around `e`."""
+        fv = self._node("value", v=fn("py:identity"), h=1)
+        nid = self._node("apply", e=e, f=fv, via="apply")
+        self.nodes[-1]["custom"] = shape
+        return nid
+
     def map(self, e: int, its: Sequence[Tuple[str, int]]) -> int:
         return self._node("map", e=e, its=[[n, i] for n, i in its])
 
@@ -175,7 +185,8 @@ class Prog:
                 dispatch: Optional[int] = None, table: Sequence[Tuple[Any, int]] = (),
                 options: Optional[Dict[str, Any]] = None, default_options: Optional[Dict[str, Any]] = None,
                 callback: Optional[int] = None, effects: Sequence[int] = (), cache: Optional[int] = None,
-                abstract: bool = False, effects_disabled: bool = False, fn_spec: Optional[Dict[str, Any]] = None) -> int:
+                abstract: bool = False, effects_disabled: bool = False, fn_spec: Optional[Dict[str, Any]] = None,
+                dflt_node: Optional[int] = None) -> int:
         """a Dataset built through the public factory; returns the dataset node id.
 
         callback / effects: ids of value nodes holding callables (or evaluatables producing them)."""
@@ -185,7 +196,9 @@ class Prog:
         ovid = self._ov
         name = f"d{dsid}"
         dflt = None
-        if not abstract:
+        if dflt_node is not None:
+            dflt = dflt_node
+        elif not abstract:
             fname = fn_name or f"f{dsid}"
             if fname not in self.fns:
                 self.fns[fname] = dict({"t": "free"}, **(fn_spec or {}))
@@ -207,6 +220,67 @@ class Prog:
                          "callback": cb, "effects_disabled": effects_disabled, "name": name,
                          "msg": f"Labrea: Evaluating <{kind} {name}>"})
         return self._node("dataset", ds=dsid)
+
+    def interface(self, dispatch: int, members: Sequence[Tuple[str, str, Any]]) -> Dict[str, int]:
+        """`@interface(dispatch) class I: ...` — returns {member name: dataset node}.  members: (name, kind, payload):
+        ("ann", None) an annotation only (abstract member); ("fn", params) a function default with these parameters;
+        ("const", value) a plain-constant default; ("eval", node) an evaluatable default.  For the model every member is
+        a dataset with the interface's dispatch; a constant / evaluatable default `v` is the library's own pass-through
+        body (`def member(v=default): return v`), a function whose name starts with `lib:` (not user code: left out
+        of the traces)."""
+        self._iface = getattr(self, "_iface", 0) + 1
+        iid = self._iface
+        out: Dict[str, int] = {}
+        spec = []
+        for name, kind, payload in members:
+            if kind == "ann":
+                nid = self.dataset([], dispatch=dispatch, abstract=True)
+            elif kind == "fn":
+                nid = self.dataset(payload, dispatch=dispatch)
+            else:
+                vn = self.value(payload) if kind == "const" else payload
+                fname = self.prim_fn(f"lib:member{iid}_{name}", "ident")
+                dn = self.funapp(self.fnvalue(fname), args=[vn])
+                nid = self.dataset([], dispatch=dispatch, dflt_node=dn)
+            self.nodes[-1]["iface"] = {"id": iid, "name": name, "kind": kind}
+            self.dss[self.ds_of(nid) - 1]["name"] = name
+            self.dss[self.ds_of(nid) - 1]["msg"] = "<derived>"
+            spec.append([name, kind, nid, payload if kind == "const" else (payload if kind == "eval" else None)])
+            out[name] = nid
+        for name, kind, nid, _ in spec:
+            self.node(nid)["iface"]["members"] = [[a, b, c] for a, b, c, _ in spec]
+            self.node(nid)["iface"]["dispatch"] = dispatch
+        return out
+
+    def implement(self, members: Dict[str, int], aliases: Sequence[Any], impls: Sequence[Tuple[str, str, Any]]) -> Dict[str, int]:
+        """`@implements(I, alias=[...]) class Impl: ...` as the next operation.  impls: (member name, kind, payload):
+        ("fn", params) a function (registered by the library as a bare application of it: no cache of its own);
+        ("node", nid) an evaluatable; ("const", value).  For the model: one `register` per member and alias."""
+        out: Dict[str, int] = {}
+        group = []
+        for name, kind, payload in impls:
+            if kind == "fn":
+                fname = self.free(f"impl{len(self.ops)}_{name}")
+                nid = self.funapp(self.fnvalue(fname), kw=payload)
+            elif kind == "const":
+                nid = self.value(payload, wrap=True)
+            else:
+                nid = payload
+            out[name] = nid
+            group.append([name, kind, nid])
+        first = True
+        iface_id = self.node(next(iter(members.values())))["iface"]["id"]
+        for name, kind, nid in group:
+            for al in aliases:
+                op = {"op": "register", "ov": self.ov_of(members[name]), "key": enc(al), "n": nid}
+                if first:
+                    op["impl_group"] = {"iface": iface_id, "aliases": [enc(a) for a in aliases], "members": group,
+                                        "iface_nodes": {k: v for k, v in members.items()}}
+                    first = False
+                else:
+                    op["impl_skip"] = True
+                self.ops.append(op)
+        return out
 
     def derive(self, ds_node: int, p: Dict[str, Any], default: bool = False) -> int:
         """`ds.with_options(p)` / `ds.with_default_options(p)` as the next operation; returns the node id of the
